@@ -2,11 +2,12 @@
 # apply each seeded change to /repo, run the check of its property (quick tier, mutants off), undo it;
 # records the VIOLATION keys in seeded/<id>/meta.json (detected_by) and seeded/<id>/detect.log
 cd /verif
-ids=${@:-$(ls seeded | grep '^C[0-9][0-9]$')}
+ids=${@:-$(ls seeded | grep '^C[0-9][0-9]b\?$')}
 for id in $ids; do
   if ! git -C /repo diff --quiet; then echo "/repo is dirty, refusing"; exit 3; fi
   if ! git -C /repo apply /verif/seeded/$id/patch.diff 2>/dev/null; then echo "$id PATCH-DOES-NOT-APPLY"; continue; fi
-  VERIF_NO_MUTANTS=1 timeout 3000 ./check $id --tier quick > seeded/$id/detect.log 2>&1; rc=$?
+  prop=${id:0:3}
+  VERIF_NO_MUTANTS=1 timeout 3000 ./check $prop --tier quick > seeded/$id/detect.log 2>&1; rc=$?
   git -C /repo checkout -- .
   python3 - "$id" "$rc" <<'PY'
 import json, re, sys, subprocess
@@ -14,9 +15,9 @@ pid, rc = sys.argv[1], int(sys.argv[2])
 log = open('/verif/seeded/%s/detect.log' % pid).read()
 keys = sorted(set(re.findall(r'^\s+key=(.*?) obligation=', log, re.M)))
 p = '/verif/seeded/%s/meta.json' % pid
-m = json.load(open(p))
+m = json.load(open(p)) if __import__('os').path.exists(p) else {'property': pid[:3]}
 head = subprocess.run(['git', '-C', '/repo', 'rev-parse', '--short', 'HEAD'], stdout=subprocess.PIPE).stdout.decode().strip()
-m['detected_by'] = {'check': './check %s --tier quick' % pid, 'exit_code': rc, 'violation_keys': keys[:12], 'n_keys': len(keys), 'repo_head': head}
+m['detected_by'] = {'check': './check %s --tier quick' % pid[:3], 'exit_code': rc, 'violation_keys': keys[:12], 'n_keys': len(keys), 'repo_head': head}
 json.dump(m, open(p, 'w'), indent=1)
 print(pid, 'rc=%d' % rc, 'keys=%d' % len(keys), keys[:3])
 PY
